@@ -250,6 +250,9 @@ func AddStandardFilters(fd FilterDictionary) { //nolint: gocyclo
 		if len(rs) <= n {
 			return s
 		}
+		if n < 0 {
+			n = 0
+		}
 		keep := n - utf8.RuneCountInString(el)
 		if keep < 0 {
 			keep = 0
